@@ -42,8 +42,9 @@ def contract(s, where=""):
     """Raise Violation unless the signal object satisfies its class contract."""
     import pulsarbat as pb
 
-    name = type(s).__name__
-    w = f"contract[{where}] {name}: "
+    # (a user-defined subclass is held to the contract of the library class it derives from)
+    name = next((c.__name__ for c in type(s).__mro__ if c.__name__ in MIN_NDIM and c.__module__.startswith("pulsarbat")), type(s).__name__)
+    w = f"contract[{where}] {type(s).__name__}: "
     check(isinstance(s, pb.Signal), w + "not a Signal")
     check(name in MIN_NDIM, w + "unknown class")
     d = s.data
